@@ -64,6 +64,10 @@ add("C14", "fault_enumeration",
     "seed validity (decodes without error, single packet) is asserted at run time; trusted: c14::judge",
     "exhaustive fault (truncation point) enumeration on the real parser", "DESIGN.md §5 C14", "E-ENUM")
 
+add("C16", "model_checking",
+    "Every parse result of C04's and C05's conformant stream spaces (every field type x width x value menu incl. 128-bit extremes, NaN/inf/-0.0, invalid UTF-8, empty values), V5/V7 walking byte, and the byte-deviation / truncation / tiny-buffer families (error elements with arbitrary remaining bytes) is serialised with serde_json::to_writer: must succeed, parse with the harness' own order-preserving reader, be byte-identical when repeated and across two parser instances fed the same history, and equal the tree built by hand from the decoded structure (exact number tokens, floats by bit pattern, record keys in ascending field index).",
+    "trusted: json.rs and c16::expected (serde derive conventions of the public types, pinned by the repository's YAML snapshots)",
+    "bounded-exhaustive enumeration of results with an independent reader and hand-built expected tree", "DESIGN.md §5 C16", "E-ENUM")
 add("C17", "model_checking",
     "Step 0 builds the library with --no-default-features (failure is the violation). Then the default build and the feature-off build of the same harness each walk every index of C04's and C05's conformant stream spaces, recording a digest of (decoded results, re-export, common view) per index: known-only streams must agree exactly between the builds; streams with a field the library types Unknown must yield no decoded record containing it in the feature-off build (and do yield it in the default build).",
     "trusted: c17::observe; enterprise-specific fields are outside the unknown-field clause",
